@@ -114,12 +114,13 @@ func lockstep(env *vh.Env, rep *vh.Report, fams []*family) {
 		wg.Add(1)
 		go func(f *family) {
 			defer wg.Done()
-			dead := false
+			dead := isDead(f.typ)
 			for _, lc := range lockstepCases(f) {
 				for r := 0; r < reps && !dead; r++ {
 					hist, why := lockstepRun(f, lc)
 					if strings.Contains(why, "did not finish") {
 						dead = true // do not pile up watchdog waits on a type that hangs
+						markDead(f.typ)
 					}
 					mu.Lock()
 					rep.Case(fmt.Sprintf("lockstep %s %v %v", f.typ, lc.prefill, lc.calls), true)
